@@ -10,7 +10,10 @@ RULE = ('rate: call histories (1-14 calls; gaps/sleep overshoots/durations in ti
         'without API key, executed on the real Entrez class under a virtual clock and stub HTTP layer; thorough additionally enumerates '
         'ALL histories of length <= 7 over gaps {0,1/4,1/2,1} s x durations {0,1/4} s against the window oracle; cache: histories of '
         'fetch_seq/get_seq/fetch_basket/get_basket over 2 ids x 2 extensions x {no path, 2 cache dirs} x overwrite with pre-existing (possibly '
-        'empty) files and possibly empty payloads; non-trivial = distinct history in which a sleep happened (rate) or a cache hit happened (cache)')
+        'empty) files and possibly empty payloads; in half of the cache histories the server answers differently from call to call (empty '
+        'answers, CRLF FASTA, GenBank records with complement()/join() features when rettype=gb) and every sequence returned by get_* is '
+        'compared - id, residues, feature types, locations and strands - with read(payload) and with a hand-written expectation, cached or '
+        'not, and re-inspected after every later call; non-trivial = distinct history in which a sleep happened (rate) or a cache hit happened (cache)')
 TRUSTED = ['time.sleep sleeps at least its argument, perf_counter is monotone (environment assumptions of the model: eps >= 0, gap >= 0, dur >= 0)',
            'no time passes between recording a request time and issuing the request (the model identifies them)',
            'float arithmetic on multiples of 2^-10 s is exact (the harness uses only such times); ulp effects of real clocks are outside the model',
@@ -20,7 +23,7 @@ ASSUMPTIONS = ['single-threaded client', 'integer-tick virtual clock']
 LEVEL_TEXT = ('Coq theorems for every call history with arbitrary non-negative arrival gaps, sleep overshoots and request durations: the request '
               'N places earlier started at least one window before, hence at most N starts in any half-open one-second window (N, window from '
               'regenerated constants); sleep only when N requests are on record and the oldest is younger than the window; cache: request iff no '
-              'path/no file/empty file/overwrite, and in any history no second request for a cached non-empty (path,id,ext). The state machine '
+              'path/no file/empty file/overwrite, and in any history - the server free to answer differently at every call - no second request for a cached non-empty (path,id,ext) unless overwrite is set or an answer for that file was empty. The state machine '
               'is tied to the real class by differential runs under a virtual clock and stub HTTP layer.')
 LEVEL_NOTE = ('Trusted: Coq kernel/vm_compute, tools/gens/entrez.py, the harness (virtual clock, stub requests module), CPython deque/float/os. '
               'Model assumptions: sleep overshoot/gaps/durations >= 0, zero delay between recording and sending a request, single thread. No axioms.')
@@ -28,6 +31,23 @@ TECHNIQUE = 'Coq invariant proof over a state machine with adversarial environme
 
 VALS = [0, 0, 0, 1, 255, 256, 512, 1023, 1024, 1025, 2048, 300]
 PAY = ['>ida\nACGT\n', '>idb desc\nTTGA\nCC\n', '']
+GB1 = ('LOCUS       AB0001                    12 bp    DNA     linear   BCT 01-JAN-2000\nDEFINITION  test.\nACCESSION   AB0001\n'
+       'VERSION     AB0001.1\nFEATURES             Location/Qualifiers\n     source          1..12\n                     /organism="x"\n'
+       '     CDS             complement(2..7)\n                     /product="p"\n     gene            complement(2..7)\n'
+       'ORIGIN\n        1 acgtacggat cc\n//\n')
+GB2 = GB1.replace('complement(2..7)', 'join(1..3,7..9)').replace('acgtacggat cc', 'ttgacaggat cc').replace('AB0001', 'AB0002')
+# what the server may answer -> what a reader must make of it: (id, residues, [(feature type, [(start, stop, strand)])]);
+# written by hand, independent of sugar's parsers
+EXPECT = {
+    PAY[0]: ('ida', 'ACGT', None), PAY[1]: ('idb', 'TTGACC', None),
+    '>old\nAAAA\n': ('old', 'AAAA', None),
+    '>idc crlf\r\nACGT\r\nGGA\r\n': ('idc', 'ACGTGGA', None),
+    '>idd\nACGT\n\nTT\n': ('idd', 'ACGTTT', None),
+    GB1: ('AB0001', 'ACGTACGGATCC', [('source', [(0, 12, '+')]), ('CDS', [(1, 7, '-')]), ('gene', [(1, 7, '-')])]),
+    GB2: ('AB0002', 'TTGACAGGATCC', [('source', [(0, 12, '+')]), ('CDS', [(0, 3, '+'), (6, 9, '+')]), ('gene', [(0, 3, '+'), (6, 9, '+')])]),
+}
+FASTA_PAY = [PAY[0], PAY[1], '>idc crlf\r\nACGT\r\nGGA\r\n', '>idd\nACGT\n\nTT\n']
+GB_PAY = [GB1, GB2]
 
 
 # ----------------------------------------------------------------------------- generation
@@ -40,7 +60,7 @@ def gen_cases(rng, tier):
         calls = [[0 if burst and rng.random() < .8 else rng.choice(VALS), rng.choice([0, 0, 0, 1, 7, 256]), rng.choice([0, 0, 1, 256, 100])]
                  for _ in range(n)]
         cases.append({'kind': 'rate', 'api': rng.random() < 0.35, 'calls': calls})
-    for _ in range(ncache):
+    for _k in range(ncache):
         payloads = [rng.choice(PAY[:1] * 3 + [PAY[2]]), rng.choice(PAY[1:2] * 3 + [PAY[2]])]
         files = []
         for p in (0, 1):
@@ -49,10 +69,19 @@ def gen_cases(rng, tier):
                     if rng.random() < 0.15:
                         files.append([p, i, e, rng.choice(['', '>old\nAAAA\n'])])
         calls = []
+        varied = _k % 2 == 1
         for _ in range(rng.randrange(1, 9)):
-            m = rng.choice(['fetch_seq', 'fetch_seq', 'get_seq', 'fetch_basket', 'get_basket'])
+            m = rng.choice(['fetch_seq', 'fetch_seq', 'get_seq', 'fetch_basket', 'get_basket'] + (['get_seq', 'get_basket'] if varied else []))
             ids = [rng.randrange(2)] if m.endswith('seq') else [rng.randrange(2) for _ in range(rng.randrange(1, 4))]
-            calls.append({'m': m, 'path': rng.choice([None, 0, 0, 1]), 'ids': ids, 'ext': rng.randrange(2), 'ow': rng.random() < 0.2})
+            c = {'m': m, 'path': rng.choice([None, 0, 0, 1]), 'ids': ids, 'ext': rng.randrange(2), 'ow': rng.random() < 0.2}
+            if varied:      # the server answers differently over time (empty answers, CRLF, GenBank when asked for rettype=gb)
+                if rng.random() < .4:
+                    c['rettype'] = 'gb'
+                pool = GB_PAY if c.get('rettype') == 'gb' else FASTA_PAY
+                c['pay'] = [rng.choice(pool + [''] * (1 if rng.random() < .5 else 0)) if rng.random() < .8 else None for _ in (0, 1)]
+                if c.get('rettype') == 'gb':
+                    c['pay'] = [x if x is not None else rng.choice(GB_PAY) for x in c['pay']]
+            calls.append(c)
         cases.append({'kind': 'cache', 'payloads': payloads, 'files': files, 'calls': calls})
     return cases
 
@@ -103,6 +132,7 @@ class _World:
         self.starts.append(self.clock)
         self.requested.append(params['id'])
         assert params['db'] == 'nuccore' and params['tool'] == 'sugar'
+        assert getattr(self, 'want_rettype', None) in (None, params['rettype']), 'rettype not forwarded'
         self.clock += self.dur
         return _Resp(self.payload(params['id']))
 
@@ -129,6 +159,36 @@ SEQID = ['AB0001.1', 'AB0001.2']   # accession.version ids: equal up to the last
 EXT = [None, 'fa']
 
 
+def call_rettype(c):
+    return c.get('rettype', 'fasta')
+
+
+def call_ext(c):
+    """(extension string, index of the extension in the model's key)"""
+    ext = EXT[c['ext']] or call_rettype(c)
+    return ext, {'fasta': 0, 'fa': 1, 'gb': 2}[ext]
+
+
+def call_payload(case, c, i):
+    pay = (c.get('pay') or [None, None])[i]
+    return case['payloads'][i] if pay is None else pay
+
+
+def _raw(fn):
+    with open(fn, newline='') as f:
+        return f.read()
+
+
+def _obs(seq):
+    """what a returned sequence shows: id, residues, features with locations and strands"""
+    return (seq.id, str(seq), [(ft.type, [(l.start, l.stop, l.strand) for l in ft.locs]) for ft in seq.fts])
+
+
+def _expected_obs(content):
+    e = EXPECT[content]
+    return (e[0], e[1], e[2] or [])
+
+
 def impl_cache(case):
     from sugar import read
     w = _World()
@@ -138,15 +198,18 @@ def impl_cache(case):
         dirs = [os.path.join(root, 'p0'), os.path.join(root, 'sub', 'p1')]   # the second does not exist yet
         for p, i, e, content in case['files']:
             os.makedirs(dirs[p], exist_ok=True)
-            with open(os.path.join(dirs[p], SEQID[i] + '.' + (EXT[e] or 'fasta')), 'w') as f:
+            with open(os.path.join(dirs[p], SEQID[i] + '.' + (EXT[e] or 'fasta')), 'w', newline='') as f:
                 f.write(content)
-        w.payload = lambda seqid: case['payloads'][SEQID.index(seqid)]
         client = w.E.Entrez(path=None, api_key=None)
         out = []
+        returned = []      # (object, what it showed when it was returned): earlier results must not change retroactively
         for c in case['calls']:
             path = None if c['path'] is None else dirs[c['path']]
-            kw = dict(rettype='fasta', ext=EXT[c['ext']], overwrite=c['ow'], path=path)
+            ext = call_ext(c)[0]
+            kw = dict(rettype=call_rettype(c), ext=EXT[c['ext']], overwrite=c['ow'], path=path)
             w.requested = []
+            w.payload = lambda seqid, c=c: call_payload(case, c, SEQID.index(seqid))
+            w.want_rettype = call_rettype(c)
             ids = [SEQID[i] for i in c['ids']]
             res, err = None, None
             try:
@@ -167,25 +230,29 @@ def impl_cache(case):
                 if path is None:
                     contents.append(w.payload(sid))
                 else:
-                    fn = os.path.join(path, sid + '.' + (EXT[c['ext']] or 'fasta'))
-                    contents.append(open(fn).read() if os.path.isfile(fn) else None)
+                    fn = os.path.join(path, sid + '.' + ext)
+                    contents.append(_raw(fn) if os.path.isfile(fn) else None)
             if c['m'].startswith('fetch') and err is None:
                 for k, r in enumerate(res):
-                    got = r.getvalue() if hasattr(r, 'getvalue') else open(r).read()
+                    got = r.getvalue() if hasattr(r, 'getvalue') else _raw(r)
                     assert got == contents[k], 'returned file/handle content differs'
                     if path is not None:
-                        assert r == os.path.join(path, ids[k] + '.' + (EXT[c['ext']] or 'fasta'))
+                        assert r == os.path.join(path, ids[k] + '.' + ext)
             if c['m'].startswith('get'):
                 if all(contents):
-                    assert err is None, 'get_* failed on non-empty content: %r' % err
-                    exp = [s for ct in contents for s in read(io.StringIO(ct), 'fasta')]
+                    assert err is None, 'get_* failed on non-empty content %r: %r' % (contents, err)
                     got = [res] if c['m'] == 'get_seq' else list(res)
-                    if c['m'] == 'get_seq':
-                        exp = exp[:1] if len(ids) == 1 else exp
-                        exp = [read(io.StringIO(contents[0]), 'fasta')[0]]
-                    assert [(s.id, str(s)) for s in got] == [(s.id, str(s)) for s in exp], 'sequence differs from read(payload)'
+                    assert len(got) == len(ids), 'one sequence per id expected, got %d for %d ids' % (len(got), len(ids))
+                    # (1) what read() parses from the payload, (2) what the payload says (hand-written expectation)
+                    exp_read = [_obs(read(io.StringIO(ct))[0]) for ct in contents]
+                    exp_hand = [_expected_obs(ct) for ct in contents]
+                    assert [_obs(s_) for s_ in got] == exp_read, 'sequence differs from read(payload): %r vs %r' % ([_obs(s_) for s_ in got], exp_read)
+                    assert exp_read == exp_hand, 'read(payload) %r is not what the payload says %r' % (exp_read, exp_hand)
+                    returned += [(s_, _obs(s_)) for s_ in got]
                 else:
                     assert err is not None
+            for s_, o in returned:
+                assert _obs(s_) == o, 'a sequence returned by an earlier call changed afterwards: %r -> %r' % (o, _obs(s_))
             # which ids were requested, in order, one flag per id occurrence
             flags = []
             pending = list(req)
@@ -196,8 +263,6 @@ def impl_cache(case):
                 else:
                     flags.append(False)
             assert not pending, 'unexpected extra requests %r' % pending
-            if err is not None and c['m'].startswith('get') and len(flags) > len(req) and not all(contents):
-                pass
             out.append([[f, ct] for f, ct in zip(flags, contents)])
         return out
     finally:
@@ -214,13 +279,13 @@ def model_term(case):
     if case['kind'] == 'rate':
         cs = coq_list([coq_pair(coq_z(g), coq_z(e), coq_z(d)) for g, e, d in case['calls']])
         return 'out (run_C19_rate %s %s)' % (coq_bool(case['api']), cs)
-    pays = coq_list([coq_bs(p) for p in case['payloads']])
     files = coq_list([coq_pair(coq_N(p), coq_N(i), coq_N(e), coq_bs(ct)) for p, i, e, ct in case['files']])
     flat = []
     for c in case['calls']:
         for i in c['ids']:
-            flat.append(coq_pair(coq_opt(c['path'], coq_N), coq_N(i), coq_N(c['ext']), coq_bool(c['ow'])))
-    return 'out (run_C19_cache %s %s %s)' % (pays, files, coq_list(flat))
+            flat.append(coq_pair(coq_opt(c['path'], coq_N), coq_N(i), coq_N(call_ext(c)[1]), coq_bool(c['ow']),
+                                 coq_bs(call_payload(case, c, i))))
+    return 'out (run_C19_cache %s %s)' % (files, coq_list(flat))
 
 
 def split_model(case, m):
@@ -269,19 +334,19 @@ def spec(case, iv):
             end = starts[k] + dur
         return None
     # cache: simulate the documented decision
-    fs = {(p, i, e): ct for p, i, e, ct in case['files']}
+    fs = {(p, i, EXT[e] or 'fasta'): ct for p, i, e, ct in case['files']}
     exp = []
     for c in case['calls']:
         row = []
         for i in c['ids']:
             if c['path'] is None:
-                row.append([True, case['payloads'][i]])
+                row.append([True, call_payload(case, c, i)])
                 continue
-            k = (c['path'], i, c['ext'])
+            k = (c['path'], i, call_ext(c)[0])
             if k in fs and fs[k] != '' and not c['ow']:
                 row.append([False, fs[k]])
             else:
-                fs[k] = case['payloads'][i]
+                fs[k] = call_payload(case, c, i)
                 row.append([True, fs[k]])
         exp.append(row)
     if iv != exp:
